@@ -535,7 +535,8 @@ impl Add<usize> for Unit {
     type Output = Unit;
 
     fn add(self, rhs: usize) -> Self::Output {
-        Unit::from(self as usize + rhs)
+        // Anything past `Unit::Year` is `Unit::Auto`, as in `From<usize>`.
+        Unit::from((self as usize).saturating_add(rhs))
     }
 }
 
